@@ -19,7 +19,7 @@ LEVEL = "fault_enumeration"
 RULE = (
     "fault sequences = (evaluator call index k, set of (realization, unperturbed | perturbation p) rows that return NaN, "
     "persistent from k on | only at k). Exhaustive: optimizer step, R=2, P=2, every k < 6, every row subset of that call, "
-    "realization_min_success 0..2, perturbation_min_success 1..2, methods slsqp (split or not), nelder-mead, differential "
+    "realization_min_success 0..2, perturbation_min_success 1..2, methods slsqp (plain, split, speculative = functions and gradient in one evaluation), nelder-mead, differential "
     "evolution - exit code and last evaluation predicted exactly from the injected faults; every max_functions from 1 to "
     "the unconstrained run length (prefix property, budget, MAX_FUNCTIONS_REACHED iff stopped early); an evaluator "
     "exception (ValueError and a custom type) at every call (must never be swallowed). Hypothesis: the same with all four filter kinds, both estimators, "
@@ -36,6 +36,7 @@ ASSUMPTIONS = [
 METHODS = {
     "slsqp": {"method": "slsqp", "options": {"maxiter": 3}},
     "slsqp-split": {"method": "slsqp", "options": {"maxiter": 3}, "split_evaluations": True},
+    "slsqp-speculative": {"method": "slsqp", "options": {"maxiter": 3}, "speculative": True},
     "nelder-mead": {"method": "nelder-mead", "options": {"maxiter": 4}},
     "de": {"method": "differential_evolution", "options": {"seed": 2, "popsize": 2, "maxiter": 1, "tol": 0.0}},
     "de-vec": {"method": "differential_evolution", "parallel": True, "options": {"seed": 2, "popsize": 2, "maxiter": 1, "tol": 0.0}},
